@@ -25,7 +25,6 @@ import ast, re
 
 from ..core import Rule, AnalysisError, node_src
 from ..engine import cexpr, pyflow
-from ..engine.pyindex import walk_no_nested
 from .pC17 import parse_body, as_list, walk as st_walk
 
 
@@ -82,8 +81,6 @@ def pp_variants(text, limit=64):
     sequence of condition texts are decided together (the same macro cannot be true and false in one translation unit).
     Directives other than if/ifdef/ifndef/elif/else/endif inside a body are not modelled."""
     lines = text.split('\n')
-    # joined continuation lines
-    groups = []           # list of dict(start, arms=[(cond, first_line, last_line)], end)
 
     def parse(i, stop_at_group_end):
         """returns (items, next index); items = list of ('line', text) | ('group', [(cond, items)], has_else)"""
